@@ -20,7 +20,7 @@ Decided (structural clauses only):
              moof offset and base decode time are origins of ONE fragment, the per-run arrays of trun are indexed by a
              run-relative sample index, default durations are per-sample rates; an operation that adds a file-relative
              quantity to a fragment origin, indexes a run array with a file-relative index, mixes bytes with ticks or
-             forms a byte / tick product in 32 bits is reported.  (Found on the pinned tree and repaired: the
+             forms a byte / tick product in 32 bits, or compares a run position with the run's count inclusively, is reported.  (Found on the pinned tree and repaired: the
              default-duration start time was (sample_id - 1) * duration added to the fragment's own decode time.)
 NOT decided: the values themselves (constants are polymorphic in R-UNITS: off-by-one errors), the duration inheritance
 order, and two choices outside the statement that are visible while reading: is_sync for fragments is a heuristic
